@@ -43,7 +43,7 @@ ELL_EQS = ["a...,a...->...", "...a,a...->...", "a...,...->a...", "...ab,b->...a"
 def histories(draw):
     net = draw(
         gen.networks(
-            min_n=2, max_n=5, max_rank=3, max_dim=3, alphabets=("ascii",),
+            min_n=2, max_n=5, max_rank=3, max_dim=6, alphabets=("ascii",),
             volume_limit=2**14, output_prob=0.5, allow_size1=draw(st.booleans()),
         )
     )
@@ -55,7 +55,7 @@ def histories(draw):
     variants = draw(
         st.lists(
             st.tuples(
-                st.sampled_from(["base", "out_perm", "transposed", "resized", "relabelled"]),
+                st.sampled_from(["base", "out_perm", "transposed", "resized", "relabelled", "size_swap"]),
                 st.integers(0, 20),
             ),
             min_size=1, max_size=3,
@@ -63,7 +63,7 @@ def histories(draw):
     )
     opts = draw(
         st.lists(
-            st.sampled_from(["auto", "greedy", "optimal", "auto-hq", "p1_tuple", "p1_list", "p2_tuple", "p2_list"]),
+            st.sampled_from(["auto", "greedy", "optimal", "auto-hq", "p1_tuple", "p1_list", "p2_tuple", "p2_list", "e_tuple", "e_list"]),
             min_size=1, max_size=3,
         )
     )
@@ -144,6 +144,15 @@ def make_variant(net, kind, k):
     elif kind == "resized" and sizes:
         ix = sorted(sizes)[k % len(sizes)]
         sizes[ix] = sizes[ix] + 1
+    elif kind == "size_swap" and len(sizes) >= 2:
+        # swap the sizes of two labels AND the order of the dict, so that the
+        # sequence of *values* is unchanged while the contraction differs
+        keys = list(sizes)
+        i = k % len(keys)
+        j = (i + 1 + (k // len(keys)) % (len(keys) - 1)) % len(keys)
+        keys[i], keys[j] = keys[j], keys[i]
+        vals = list(sizes.values())
+        sizes = dict(zip(keys, vals))
     elif kind == "relabelled":
         m = {ix: gen.ASCII[51 - j] for j, ix in enumerate(sorted(sizes))}
         inputs = [[m[ix] for ix in t] for t in inputs]
@@ -167,19 +176,58 @@ def run_case(spec, sub=None):
     hits = 0
     variants_seen = set()
     cls = []
+    handed_out = {}  # id(object) -> (canonical contraction, object)
+
+    def canonical(inputs, output, sizes):
+        m = {}
+        for t in inputs:
+            for ix in t:
+                m.setdefault(ix, len(m))
+        for ix in output:
+            m.setdefault(ix, len(m))
+        return (
+            tuple(tuple(m[ix] for ix in t) for t in inputs),
+            tuple(m[ix] for ix in output),
+            tuple(sorted((m[ix], d) for ix, d in sizes.items() if ix in m)),
+        )
+
+    def check_not_shared(obj, canon, what):
+        """A cached path / expression object may be handed out again only for
+        the same contraction up to relabelling."""
+        prev = handed_out.get(id(obj))
+        if prev is not None and prev[1] is obj and prev[0] != canon:
+            viol.append(
+                f"{what}: received the very object (cached path/expression) that an earlier, "
+                "different contraction received"
+            )
+        handed_out[id(obj)] = (canon, obj)
 
     for k, call in enumerate(spec["calls"]):
         inputs, output, sizes = make_variant(net, call["variant"], call["vk"])
         variants_seen.add((tuple(inputs), output, tuple(sorted(sizes.items()))))
+        canon = canonical(inputs, output, sizes)
         arrays = ref.make_arrays(inputs, sizes, call["aseed"] + 100 * k, "f")
         arrays2 = ref.make_arrays(inputs, sizes, call["aseed"] + 100 * k + 7, "f")
         exp = ref.dense_ref(inputs, output, sizes, arrays)
         exp2 = ref.dense_ref(inputs, output, sizes, arrays2)
         o = call["optimize"]
         explicit = None
+        edge = None
         if o.startswith("p"):
             explicit = paths[o[:2]]
             optimize = list(map(tuple, explicit)) if o.endswith("list") else explicit
+        elif o.startswith("e_"):
+            # an edge path: every label of this variant, in an order derived
+            # from the spec (dispatch on the *type* of optimize is cached)
+            labs = sorted(sizes)
+            r = call["vk"] % max(1, len(labs))
+            edge = labs[r:] + labs[:r]
+            if not edge:
+                optimize = "greedy"
+                o = "greedy"
+                edge = None
+            else:
+                optimize = list(edge) if o.endswith("list") else tuple(edge)
         else:
             optimize = o
         eq = ",".join("".join(t) for t in inputs) + "->" + "".join(output)
@@ -249,12 +297,16 @@ def run_case(spec, sub=None):
                 out["values"].append((r, exp, bool(strip)))
             elif fn == "path":
                 out["path"] = ctg.array_contract_path(inputs, output, sizes, optimize=optimize, cache=cache)
+                if cache and explicit is None and edge is None and len(out["path"]) > 0:
+                    check_not_shared(out["path"], canon, what)
             elif fn == "tree":
                 t = ctg.array_contract_tree(inputs, output, sizes, optimize=optimize, sort_contraction_indices=call["sort"])
                 out["path"] = t.get_path()
                 out["values"].append((t.contract(arrays), exp, False))
             elif fn in ("expression", "expression_reuse"):
                 e = ctg.array_contract_expression(inputs, output, sizes, optimize=optimize, strip_exponent=strip, cache=cache, **kw)
+                if cache and len(inputs) > 1:
+                    check_not_shared(e, canon, what)
                 out["values"].append((e(*arrays), exp, bool(strip)))
                 if fn == "expression_reuse":
                     out["values"].append((e(*arrays2), exp2, bool(strip)))
@@ -274,6 +326,19 @@ def run_case(spec, sub=None):
                 exp_m = ref.dense_ref(inputs, output, sizes, mixed)
                 free2 = [arrays2[i] for i in range(n) if i not in consts]
                 out["values"].append((e(*free2), exp_m, False))
+                # the constants are updated IN PLACE and the expression is asked
+                # for again: it must be built from their current values
+                changed = [a.copy() for a in arrays]
+                for i in consts:
+                    arrays[i] += 1.0
+                try:
+                    args3 = [arrays[i] if i in consts else shapes[i] for i in range(n)]
+                    e3 = ctg.einsum_expression(eq, *args3, optimize=optimize, constants=consts, cache=cache, **k2)
+                    exp3 = ref.dense_ref(inputs, output, sizes, arrays)
+                    out["values"].append((e3(*free), exp3, False))
+                finally:
+                    for i in consts:
+                        arrays[i][...] = changed[i]
             return out
 
         before = (len(I._PATH_CACHE), len(I._CONTRACT_EXPR_CACHE))
@@ -288,7 +353,14 @@ def run_case(spec, sub=None):
             check_value(r, want, stripped, f" [cached, value {j}]")
         if res["path"] is not None:
             p = [tuple(s) for s in res["path"]]
-            msg = ref.check_path_valid(p, n)
+            if edge is not None and fn == "path":
+                from .c05 import check_partial
+                from .c10 import edge_ref
+
+                left = n - sum(len(s_) - 1 for s_ in edge_ref(edge, inputs))
+                msg = check_partial(p, n, left)
+            else:
+                msg = ref.check_path_valid(p, n)
             if msg:
                 viol.append(f"{what}: returned path {p} invalid: {msg}")
             elif explicit is not None:
@@ -311,9 +383,15 @@ def run_case(spec, sub=None):
                 break
             for j, ((r1, want, stripped), (r2, _, _)) in enumerate(zip(res["values"], res2["values"])):
                 check_value(r2, want, stripped, f" [uncached, value {j}]")
-            if res["path"] is not None and explicit is not None:
+            if res["path"] is not None and (explicit is not None or edge is not None or fn == "path"):
+                # explicit paths and the deterministic presets used here (small
+                # networks: greedy / optimal, also behind auto / auto-hq) must
+                # not depend on whether the answer came from the cache
                 if [tuple(s) for s in res2["path"]] != [tuple(s) for s in res["path"]]:
-                    viol.append(f"{what}: cached path differs from uncached path for an explicit path")
+                    viol.append(
+                        f"{what}: path with caching {[tuple(s) for s in res['path']]} differs from the "
+                        f"path without caching {[tuple(s) for s in res2['path']]}: another contraction's entry was served"
+                    )
         if viol:
             break
         cls.append(f"fn={fn}")
